@@ -6,6 +6,7 @@ from ..program import Program, dotted, norm
 from ..report import AnalysisError
 from ..flow import guards_of, facts, stores, always_exits
 from ..calls import params_of, defaults_of, bind_call
+from ..algebra import SymEval, C, L, Rat
 
 OA = 'cherab/openadas/openadas.py'
 RATES = ['cherab/openadas/rates/atomic.pyx', 'cherab/openadas/rates/pec.pyx', 'cherab/openadas/rates/beam.pyx',
@@ -630,66 +631,102 @@ def _resolve(e, ldefs, depth=0):
     return e
 
 
+class _UnitEval(SymEval):
+    """tables as leaves data[key]; log10 and the photon conversion kept as named leaves; slices of a table are the table"""
+
+    def subscript(self, n):
+        if isinstance(n.value, ast.Name) and n.value.id == 'data' and isinstance(n.slice, ast.Constant):
+            return L('data[%s]' % n.slice.value)
+        return self.ev(n.value)
+
+    def call(self, n):
+        d = dotted(n.func) or ''
+        if d in ('np.log10', 'log10', 'numpy.log10') and len(n.args) == 1:
+            return L('log10(%s)' % self.ev(n.args[0]).key())
+        if d == 'PhotonToJ.to' and len(n.args) == 2:
+            return L('P2J(%s,%s)' % (self.ev(n.args[0]).key(), self.ev(n.args[1]).key()))
+        if d in ('np.array', 'np.asarray', 'np.ascontiguousarray') and n.args:
+            return self.ev(n.args[0])
+        return super().call(n)
+
+
 def _units(run, prog, ci, init, ev, ldefs, K):
+    from ..inline import resolver
     iparams = params_of(init)
     has_w = 'wavelength' in iparams
     path = ci.mod.relpath
-    # photon classes: the emission table goes through PhotonToJ.to(<table>, wavelength) inside log10
-    p2j = [c for c in ast.walk(init) if isinstance(c, ast.Call) and dotted(c.func) == 'PhotonToJ.to']
-    run.subject('C07-R6')
-    if has_w:
-        ok = False
-        for c in p2j:
-            if len(c.args) == 2 and norm(c.args[1]) == 'wavelength':
-                tab = _resolve(c.args[0], {k: v[:1] for k, v in ldefs.items()})
-                if isinstance(tab, ast.Subscript) and norm(tab.value) == 'data' and isinstance(tab.slice, ast.Constant) \
-                        and tab.slice.value in ('rate', 'sen', 'qeb'):
-                    ok = True
-        if ok:
-            run.ok('C07-R6', ci.name + ' photon -> J', norm(p2j[0]))
-        else:
-            run.fail('C07-R6', K + '__init__|photon-conversion', path, init.lineno,
-                     '%s takes a wavelength but its emission table is not converted with PhotonToJ.to(table, wavelength)' % ci.name)
-    else:
-        if p2j:
-            run.fail('C07-R6', K + '__init__|photon-conversion', path, init.lineno, '%s converts photons to J without being a photon coefficient' % ci.name)
-        else:
-            run.ok('C07-R6', ci.name + ' no photon conversion', 'rate in SI already', sample=False)
-    # beam tables: st / sref ; beam cx: q / qref
-    texts = {k: norm(v[-1]) for k, v in ldefs.items()}
-    if 'st' in texts:
-        run.subject('C07-R6')
-        if texts['st'].replace(' ', '') == "np.log10(data['st']/data['sref'])":
-            run.ok('C07-R6', ci.name + ' st/sref', texts['st'])
-        else:
-            run.fail('C07-R6', K + '__init__|st-sref', path, init.lineno, '%s: temperature factor is %s, expected log10(st / sref)' % (ci.name, texts['st']))
-        run.subject('C07-R6')
-        want = "np.log10(PhotonToJ.to(data['sen'], wavelength))" if has_w else "np.log10(data['sen'])"
-        if texts.get('sen') == want:
-            run.ok('C07-R6', ci.name + ' sen', texts['sen'])
-        else:
-            run.fail('C07-R6', K + '__init__|sen', path, init.lineno, '%s: sen is %s, expected %s' % (ci.name, texts.get('sen'), want))
-    for q in ('qti', 'qni', 'qzeff', 'qbmag'):
-        if q in texts:
-            run.subject('C07-R6')
-            src = {'qti': 'qti', 'qni': 'qni', 'qzeff': 'qz', 'qbmag': 'qb'}[q]
-            if texts[q] == "data['%s'] / qref" % src and texts.get('qref') == "data['qref']":
-                run.ok('C07-R6', '%s %s/qref' % (ci.name, q), texts[q], sample=False)
-            else:
-                run.fail('C07-R6', K + '__init__|' + q, path, init.lineno, '%s: %s is %s, expected data[%r] / qref' % (ci.name, q, texts[q], src))
-    # evaluate: axis kinds vs argument kinds, log10 pairing
-    field_axes = {}
+    res = resolver(init)
+    ue = _UnitEval()
+    tables = []        # (field, interpolator call, [axis Rat], table Rat)
     for t, v, st in stores(init):
         if isinstance(t, ast.Attribute) and norm(t.value) == 'self':
             for c in ast.walk(v):
-                if isinstance(c, ast.Call) and dotted(c.func) in INTERP:
+                if isinstance(c, ast.Call) and dotted(c.func) in INTERP and len(c.args) > INTERP[dotted(c.func)]:
                     nd = INTERP[dotted(c.func)]
-                    axes = []
-                    for a in c.args[:nd]:
-                        logged = isinstance(a, ast.Call) and dotted(a.func) == 'np.log10'
-                        inner = a.args[0] if logged else a
-                        axes.append((kind_of(norm(inner)), logged))
-                    field_axes.setdefault(t.attr, []).append(axes)
+                    try:
+                        tables.append((t.attr, c, [ue.ev(res(a)) for a in c.args[:nd]], ue.ev(res(c.args[nd]))))
+                    except Exception:
+                        pass
+    EM = ('rate', 'sen', 'qeb')
+    leaves = {l for f_, c_, ax_, tb in tables for l in tb.leaves()}
+    run.subject('C07-R6')
+    conv = [l for l in leaves if l.startswith('log10(P2J(')]
+    raw = [l for l in leaves if any(l == 'log10(data[%s])' % k for k in EM)]
+    anyp2j = [l for l in leaves if 'P2J(' in l]
+    if not tables:
+        run.undecided('C07-R6', ci.name + ' tables', 'no interpolator over a table recognised in __init__')
+    elif has_w:
+        good = [l for l in conv if any(l == 'log10(P2J(data[%s],wavelength))' % k for k in EM)]
+        if good and not raw:
+            run.ok('C07-R6', ci.name + ' photon -> J', good[0])
+        elif raw or (conv and not good):
+            run.fail('C07-R6', K + '__init__|photon-conversion', path, init.lineno,
+                     '%s takes a wavelength but interpolates %s: the emission table is not converted with PhotonToJ.to(table, wavelength) before log10'
+                     % (ci.name, (raw or conv)[0]))
+        else:
+            run.undecided('C07-R6', ci.name + ' photon -> J', 'emission table not recognised among %s' % sorted(leaves)[:4])
+    else:
+        if anyp2j:
+            run.fail('C07-R6', K + '__init__|photon-conversion', path, init.lineno, '%s converts photons to J without being a photon coefficient' % ci.name)
+        else:
+            run.ok('C07-R6', ci.name + ' no photon conversion', 'rate in SI already', sample=False)
+    # beam tables: log10(st / sref) and log10(sen)
+    for fld, c, axes, tb in tables:
+        if any('data[st]' in l for l in tb.leaves()):
+            run.subject('C07-R6')
+            want = L('log10(%s)' % (L('data[st]') / L('data[sref]')).key())
+            if tb.eq(want):
+                run.ok('C07-R6', ci.name + ' st/sref', tb.key())
+            else:
+                run.fail('C07-R6', K + '__init__|st-sref', path, c.lineno, '%s: the temperature factor table is %s, expected log10(st / sref)' % (ci.name, tb.key()[:100]))
+        if any('data[sen]' in l for l in tb.leaves()):
+            run.subject('C07-R6')
+            want = L('log10(P2J(data[sen],wavelength))') if has_w else L('log10(data[sen])')
+            if tb.eq(want):
+                run.ok('C07-R6', ci.name + ' sen', tb.key(), sample=False)
+            else:
+                run.fail('C07-R6', K + '__init__|sen', path, c.lineno, '%s: the sen table is %s, expected %s' % (ci.name, tb.key()[:100], want.key()))
+        for q, axk in (('qti', 'ti'), ('qni', 'ni'), ('qz', 'z'), ('qb', 'b')):
+            if any(l == 'data[%s]' % q for l in tb.leaves()):
+                run.subject('C07-R6')
+                if tb.eq(L('data[%s]' % q) / L('data[qref]')) and len(axes) == 1 and axes[0].eq(L('data[%s]' % axk)):
+                    run.ok('C07-R6', '%s %s/qref' % (ci.name, q), '%s over data[%s]' % (tb.key(), axk), sample=False)
+                elif not tb.eq(L('data[%s]' % q) / L('data[qref]')):
+                    run.fail('C07-R6', K + '__init__|' + q, path, c.lineno, '%s: the %s factor is %s, expected data[%s] / data[qref]' % (ci.name, q, tb.key()[:80], q))
+                else:
+                    run.fail('C07-R6', K + '__init__|' + q + '-axis', path, c.lineno,
+                             '%s: the %s factor is tabulated over %s, expected data[%s]' % (ci.name, q, [a_.key()[:40] for a_ in axes], axk))
+    # evaluate: axis kinds vs argument kinds, log10 pairing
+    field_axes = {}
+    for fld, c, axes, tb in tables:
+        kinds = []
+        for a_ in axes:
+            k_ = a_.key()
+            logged = k_.startswith('log10(')
+            inner = k_[6:-1] if logged else k_
+            m_ = re.match(r'^data\[(\w+)\]$', inner)
+            kinds.append((kind_of(m_.group(1) if m_ else inner), logged))
+        field_axes.setdefault(fld, []).append(kinds)
     eparams = params_of(ev)[1:]
     for c in [c for c in ast.walk(ev) if isinstance(c, ast.Call) and isinstance(c.func, ast.Attribute) and c.func.attr == 'evaluate'
               and norm(c.func.value).startswith('self.')]:
